@@ -346,6 +346,10 @@ func (p proxyHandler) writeErrorResponse(rw http.ResponseWriter, req *http.Reque
 	if res == nil {
 		res = p.errorResponse(req, err)
 		challenge = res.Header.Values("Proxy-Authenticate")
+	} else {
+		// The upstream proxy rejected the transport's own CONNECT request,
+		// the response answers the request of our client.
+		res.Request = req
 	}
 	if err := p.modifyResponse(res); err != nil {
 		log.Error(req.Context(), "error modifying error response", "error", err)
